@@ -56,3 +56,12 @@ add("C12",
     "judged against the statement.",
     "Guards: foreign operands have string __name__/__module__ (the non-string case is the C10 finding); no operand's type subclasses the other's.",
     "Lean 4 proof (order laws + twin equality + sorting) + differential correspondence x hash seeds + statement oracle", "6/C12")
+add("C14",
+    "Theorems over all __conform__ behaviours, hook lists of any length, alternates and custom __adapt__: C14_order (result AND call log = the declarative "
+    "precedence), C14_conform_wins, C14_raise_attr / C14_raise_conform / C14_hooks (exceptions propagate unchanged, nothing later runs, hooks run in list order "
+    "up to the first that answers), C14_provided, C14_alternate, C14_custom (interfacemethod __adapt__ replaces provided-check and hooks), C14_registry "
+    "(= queryAdapter when the registry hook is installed), C14_twin (IB__call__ = InterfaceBase.__call__). The finite product of input kinds with hook lists up "
+    "to length 3 is executed COMPLETELY on both twins every run (result + log compared with the model and judged against the statement; registry clause with a "
+    "real AdapterRegistry).",
+    "Guards: __conform__ callable with one argument (a TypeError of the call machinery itself is documented as 'no __conform__'); custom __adapt__ only via interfacemethod.",
+    "Lean 4 proof (declarative precedence incl. call log, twin equality) + exhaustive finite correspondence + statement oracle", "6/C14")
